@@ -67,12 +67,12 @@ def gen(tier, rng):
             cases.append(f"cstall\t{client}\t{t}\t-")
             # ... also for a connection of its own bound to a local address
             cases.append(f"cstall\t{client}\t{t}\tl")
-    # the stall is around the TLS layer: implicit TLS (w) or required STARTTLS (r); no answer to the ClientHello (h), to
+    # the stall is around the TLS layer: implicit TLS (w), required (r) or opportunistic (o) STARTTLS; no answer to the ClientHello (h), to
     # STARTTLS (s), no greeting inside TLS (g), no answer to EHLO / MAIL / the end of data inside TLS (e, m, z); client `c` is
     # a connection of its own whose timeout is configured after the set-up, with `set_timeout`
     for t in ts:
         for client in "sa":
-            for mode, ats in (("w", "hgemz"), ("r", "shemz")):
+            for mode, ats in (("w", "hgemz"), ("r", "shemz"), ("o", "sh")):
                 for at in ats:
                     cases.append(f"tstall\t{client}\t{t}\t{mode}\t{at}")
         for mode in "wr":
